@@ -1070,6 +1070,158 @@ func isConst(v ssa.Value) bool { _, ok := v.(*ssa.Const); return ok }
 
 // isSeqNumOfPacket: v is pkt.SequenceNumber (field of pion rtp.Packet/Header),
 // possibly copied to a local.
+// isTimestampOfPacket: v is pkt.Timestamp (possibly via a local copy).
+func isTimestampOfPacket(v ssa.Value) bool {
+	u, ok := v.(*ssa.UnOp)
+	if !ok || u.Op != token.MUL {
+		return false
+	}
+	fa, ok := u.X.(*ssa.FieldAddr)
+	if !ok {
+		return false
+	}
+	f := core.FieldOfAddr(fa)
+	return f != nil && f.Name() == "Timestamp" && f.Pkg() != nil && f.Pkg().Path() == "github.com/pion/rtp"
+}
+
+// tsFields finds the uint32 decoder fields compared with pkt.Timestamp and,
+// for each, the persistent slice fields that are reset on the mismatch edge
+// (the buffer whose timestamp the field records).
+func (m *decModel) tsFields() map[*types.Var][]*types.Var {
+	out := map[*types.Var][]*types.Var{}
+	for _, fn := range m.methods {
+		for _, b := range fn.Blocks {
+			if len(b.Instrs) == 0 {
+				continue
+			}
+			iff, ok := b.Instrs[len(b.Instrs)-1].(*ssa.If)
+			if !ok {
+				continue
+			}
+			bo, ok := iff.Cond.(*ssa.BinOp)
+			if !ok || bo.Op != token.EQL && bo.Op != token.NEQ {
+				continue
+			}
+			var T *types.Var
+			if isTimestampOfPacket(bo.X) {
+				T = loadOfField(bo.Y, m.decoder)
+			} else if isTimestampOfPacket(bo.Y) {
+				T = loadOfField(bo.X, m.decoder)
+			}
+			if T == nil {
+				continue
+			}
+			mis := b.Succs[0]
+			if bo.Op == token.EQL {
+				mis = b.Succs[1]
+			}
+			for f := range m.fields {
+				// a reset of f somewhere in the region dominated by the mismatch edge
+				for _, bb := range fn.Blocks {
+					if !mis.Dominates(bb) {
+						continue
+					}
+					for _, in := range bb.Instrs {
+						if _, ok := m.resetEvent(in, f); ok {
+							dup := false
+							for _, x := range out[T] {
+								if x == f {
+									dup = true
+								}
+							}
+							if !dup {
+								out[T] = append(out[T], f)
+							}
+						}
+					}
+				}
+			}
+		}
+	}
+	return out
+}
+
+// tsEstablishedAt: at instruction `at` in fn, the recorded timestamp T equals
+// the packet's: T is stored from pkt.Timestamp (or from a parameter that every
+// caller binds to pkt.Timestamp) before `at` on every path or after it on every
+// path to a return, or `at` is dominated by the edge T == pkt.Timestamp.
+func (m *decModel) tsEstablishedAt(p *core.Prog, fn *ssa.Function, at ssa.Instruction, T *types.Var, depth int) (bool, string) {
+	isTStore := func(in ssa.Instruction) bool {
+		st, ok := in.(*ssa.Store)
+		if !ok {
+			return false
+		}
+		if _, ff := isDecoderRecvField(st.Addr, m.decoder); ff != T {
+			return false
+		}
+		if isTimestampOfPacket(st.Val) {
+			return true
+		}
+		if prm, ok := st.Val.(*ssa.Parameter); ok {
+			// every call site passes pkt.Timestamp
+			idx := -1
+			for i, q := range fn.Params {
+				if q == prm {
+					idx = i
+				}
+			}
+			refs := p.RefsTo(fn)
+			if idx < 0 || len(refs) == 0 {
+				return false
+			}
+			for _, ref := range refs {
+				c, ok := ref.Instr.(ssa.CallInstruction)
+				if !ok || !ref.IsCall || !isTimestampOfPacket(c.Common().Args[idx]) {
+					return false
+				}
+			}
+			return true
+		}
+		return false
+	}
+	// equality edge
+	for _, cd := range core.Conds(at.Block()) {
+		bo, ok := cd.V.(*ssa.BinOp)
+		if !ok {
+			continue
+		}
+		eq := bo.Op == token.EQL && cd.Pol || bo.Op == token.NEQ && !cd.Pol
+		if !eq {
+			continue
+		}
+		if isTimestampOfPacket(bo.X) && loadOfField(bo.Y, m.decoder) == T || isTimestampOfPacket(bo.Y) && loadOfField(bo.X, m.decoder) == T {
+			return true, "dominated by the edge " + T.Name() + " == pkt.Timestamp"
+		}
+	}
+	// stored before on every path
+	before, _, _ := core.PathAvoiding(fn, nil, func(x ssa.Instruction) bool { return x == at }, isTStore)
+	if !before {
+		return true, T.Name() + " = pkt.Timestamp on every path before"
+	}
+	after, _, _ := core.PathAvoiding(fn, at, core.IsReturn, isTStore)
+	if !after {
+		return true, T.Name() + " = pkt.Timestamp on every path after, before returning"
+	}
+	// otherwise every call site of fn must establish it
+	if depth < 2 && fn.Signature.Recv() != nil {
+		refs := p.RefsTo(fn)
+		if len(refs) == 0 {
+			return false, "no store of " + T.Name() + " around the append"
+		}
+		for _, ref := range refs {
+			if !ref.IsCall {
+				return false, fnShort(fn) + " is used as a value"
+			}
+			ok, why := m.tsEstablishedAt(p, ref.Caller, ref.Instr, T, depth+1)
+			if !ok {
+				return false, "call site " + p.Pos(ref.Instr.Pos()) + " in " + fnShort(ref.Caller) + ": " + why
+			}
+		}
+		return true, "established at every call site of " + fnShort(fn)
+	}
+	return false, "no store of " + T.Name() + " = pkt.Timestamp on some path around the append"
+}
+
 func isSeqNumOfPacket(v ssa.Value) bool {
 	u, ok := v.(*ssa.UnOp)
 	if !ok || u.Op != token.MUL {
@@ -1489,6 +1641,7 @@ func decoderRules(c *Ctx, prop string) {
 	}
 	if prop == "C07" {
 		r.Rule("C07/CHAIN-INTEGRITY", "every append to a fragment-chain field is reached only after a reset of the chain in the same call, or through the passing edge of a continuity check (sequence number == expected, wire offset == accumulated size, accumulator == 0)", 16)
+		r.Rule("C07/TS-SYNC", "where a decoder flushes its buffer when the packet timestamp differs from a recorded one, every growth of that buffer leaves the recorded timestamp equal to the packet's (otherwise one damaged unit makes every later packet look like a new unit)", 2)
 		r.Rule("C07/ROLE-TABLE", "every persistent slice field of a Decoder has a reviewed role (fragment chain or unit list) that agrees with its usage", 16)
 		r.Rule("C07/ACC-SYNC", "every reset helper of a fragment chain also zeroes the chain's size accumulator, so 'accumulator == 0' means no stale bytes", 9)
 	}
@@ -1600,6 +1753,32 @@ func decoderRules(c *Ctx, prop string) {
 		}
 	}
 	r.Extra["decoders_modelled"] = ndec
+	if prop == "C07" {
+		for _, rel := range pkgs {
+			m := buildDecModel(p, rel)
+			if m == nil {
+				continue
+			}
+			short := strings.TrimPrefix(rel, "pkg/format/")
+			ts := m.tsFields()
+			var Ts []*types.Var
+			for T := range ts {
+				Ts = append(Ts, T)
+			}
+			sort.Slice(Ts, func(i, j int) bool { return Ts[i].Name() < Ts[j].Name() })
+			for _, T := range Ts {
+				for _, f := range ts[T] {
+					for _, s := range m.fields[f] {
+						if s.kind != skGrow && s.kind != skTruncGrow && s.kind != skFresh {
+							continue
+						}
+						ok, why := m.tsEstablishedAt(p, s.fn, s.st, T, 0)
+						r.Check(ok, "C07/TS-SYNC", fmt.Sprintf("%s %s grows %s, recorded in %s", short, fnShort(s.fn), f.Name(), T.Name()), p.Pos(s.st.Pos()), why, "the buffer grows but the recorded timestamp may not be the packet's: "+why)
+					}
+				}
+			}
+		}
+	}
 }
 
 // emptinessAccumulators: int fields compared with 0 in an If of some method
